@@ -535,7 +535,9 @@ class Function(Value):
 
         for bb in self.BasicBlocks:
             bb.UpdateUses()
-            self.__uses.update(bb.Uses)
+            # A value can be used in several blocks: merge the lists
+            for ref, users in bb.Uses.items():
+                self.__uses[ref].extend(users)
 
     @property
     def BasicBlocks(self):
@@ -584,6 +586,11 @@ class Function(Value):
         return self.__name
 
     def ReplaceUses(self, uses):
+        # Earlier passes may have swapped instructions for copies (the function
+        # argument rewrite does), so the use lists have to be rebuilt first;
+        # otherwise the replaced objects are updated instead of the live ones
+        self.UpdateUses()
+
         for ref, new in uses.items():
             for instruction in self.__uses[ref]:
                 instruction.ReplaceUses(ref, new)
